@@ -103,6 +103,28 @@ class Unit:
         s.times['gcc-gen'] = t
         if rc: raise VfError('gcc of generated C failed for %s be%s:\n%s' % (s.name, s.be, out[-3000:]))
 
+    def run_native_asan(s, h, inputs):
+        """memory-safety counterexamples are replayed on an AddressSanitizer build of the real C++ TU"""
+        exe = os.path.join(s.dir, 'real_asan')
+        if not os.path.exists(exe):
+            objs = []
+            for pt in s.parts:
+                o = s.dir + '/tu%s_asan.o' % pt['suf']
+                fl = list(pt['flags']) + (['-DVF_PFX=g%s' % pt['pfx'].rstrip('_')] if pt['pfx'] else [])
+                rc, out, t = run(['g++', '-O1', '-g', '-fsanitize=address', '-c', pt['cpp'], '-o', o] + CXXFLAGS + fl + s.excflag())
+                if rc: raise VfError('g++ asan failed:\n' + out[-2000:])
+                objs.append(o)
+            rc, out, t = run(['g++', '-fsanitize=address'] + objs + [s.hc] + s.rt_files + ['-x', 'none', '-I' + VERIF + '/harness', '-o', exe])
+            if rc:
+                rc, out, t = run(['gcc', '-fsanitize=address', '-c', s.hc, '-o', s.dir + '/h_asan.o', '-I' + VERIF + '/harness'])
+                objs2 = [s.dir + '/h_asan.o']
+                for k, src in enumerate(s.rt_files):
+                    run(['gcc', '-fsanitize=address', '-c', src, '-o', s.dir + '/rt_asan%d.o' % k, '-I' + VERIF + '/harness']); objs2.append(s.dir + '/rt_asan%d.o' % k)
+                rc, out, t = run(['g++', '-fsanitize=address'] + objs + objs2 + ['-o', exe])
+                if rc: raise VfError('link asan failed:\n' + out[-2000:])
+        rc, out, t = run([exe, str(h)] + [str(x) for x in inputs], timeout=60)
+        return rc, out
+
     def run_native(s, exe, h, inputs, printlog=False):
         env = dict(os.environ)
         if printlog: env['VF_PRINT'] = '1'
@@ -160,3 +182,86 @@ def parse_cbmc(rc, out, t):
             traces[parts[i].strip()] = [ins.get(k, 0) for k in range(16)]
         res['traces'] = traces
     return res
+
+
+class KernelUnit:
+    """a leaf kernel: one hand-written C++ TU exporting extern "C" wrappers around real library code + one C harness.
+    'variants' are -D flag lists (pre-state script, type pair, ...); harness index h = variant h."""
+    def __init__(s, name, cpp_path, harness_path, entry, variants, labels, unwind=12, cxxstd='-std=c++17', extra_cbmc=()):
+        s.name = name; s.be = 'K'; s.entry = entry; s.variants = variants; s.unwind = unwind; s.extra_cbmc = list(extra_cbmc)
+        s.dir = os.path.join(workdir(), name)
+        os.makedirs(s.dir, exist_ok=True)
+        s.cpp = cpp_path; s.hc = harness_path; s.cxxstd = cxxstd
+        s.ll = os.path.join(s.dir, 'k.ll'); s.genc = os.path.join(s.dir, 'k_gen.c')
+        s.index = [{'harness': entry, 'conf': labels[i], 'script': variants[i], 'paths': 0, 'decs_by_kind': {}} for i in range(len(variants))]
+        s.functions = []; s.nevents = 1; s.times = {}; s.validated = 0
+        s._real = {}
+
+    def flags(s): return [s.cxxstd, '-DNDEBUG', '-I' + REPO_INC, '-I' + os.path.join(VERIF, 'stubs'), '-w', '-fno-exceptions']
+
+    def build_real(s):
+        rc, out, t = run(['g++', '-O1', '-c', s.cpp, '-o', s.dir + '/k.o'] + s.flags())
+        if rc: raise VfError('g++ failed for kernel %s:\n%s' % (s.name, out[-3000:]))
+
+    def lower(s):
+        rc, out, t = run(CLANG_LOWER + [s.cpp, '-o', s.ll] + s.flags())
+        if rc: raise VfError('clang failed for kernel %s:\n%s' % (s.name, out[-3000:]))
+        rc, out, t = run([sys.executable, VERIF + '/tools/ll2c.py', s.ll], timeout=600)
+        if rc: raise VfError('ll2c failed for kernel %s:\n%s' % (s.name, out[-3000:]))
+        open(s.genc, 'w').write(out)
+        s.functions = re.findall(r'^define [^@]*@("?[^"(\s]+"?)\(', open(s.ll).read(), re.M)
+
+    def build_gen(s): pass
+
+    def exe(s, h, gen):
+        key = (h, gen)
+        if key in s._real: return s._real[key]
+        exe = os.path.join(s.dir, '%s_%d' % ('gen' if gen else 'real', h))
+        if gen:
+            cmd = ['gcc', '-O0', '-w', '-falign-functions=16', '-DGEN', s.genc, s.hc, VERIF + '/tools/rt.c', '-I' + VERIF + '/tools', '-I' + VERIF + '/harness', '-o', exe] + s.variants[h]
+            rc, out, t = run(cmd)
+        else:
+            rc, out, t = run(['gcc', '-O1', '-c', s.hc, '-o', exe + '.o', '-I' + VERIF + '/harness'] + s.variants[h])
+            if not rc: rc, out, t = run(['g++', s.dir + '/k.o', exe + '.o', '-o', exe])
+        if rc: raise VfError('native build of kernel %s variant %d failed:\n%s' % (s.name, h, out[-2000:]))
+        s._real[key] = exe
+        return exe
+
+    def run_native(s, exe_unused, h, inputs, printlog=False):
+        rc, out, t = run([s.exe(h, False)] + [str(x) for x in inputs], timeout=20)
+        return rc, out
+
+    exe_real = None
+
+    def run_native_asan(s, h, inputs):
+        exe = os.path.join(s.dir, 'asan_%d' % h)
+        if not os.path.exists(exe):
+            rc, out, t = run(['g++', '-O1', '-g', '-fsanitize=address', '-c', s.cpp, '-o', s.dir + '/k_asan.o'] + s.flags())
+            if rc: raise VfError('g++ asan failed:\n' + out[-2000:])
+            rc, out, t = run(['gcc', '-fsanitize=address', '-c', s.hc, '-o', exe + '.o', '-I' + VERIF + '/harness'] + s.variants[h])
+            if not rc: rc, out, t = run(['g++', '-fsanitize=address', s.dir + '/k_asan.o', exe + '.o', '-o', exe])
+            if rc: raise VfError('asan build failed:\n' + out[-2000:])
+        rc, out, t = run([exe] + [str(x) for x in inputs], timeout=60)
+        return rc, out
+
+    def validate(s, seed, n=4):
+        rnd = random.Random(seed); cnt = 0
+        hs = list(range(len(s.variants))); rnd.shuffle(hs)
+        for h in hs[:3]:
+            for k in range(n * 4):
+                ins = [rnd.randrange(0, 6), rnd.randrange(0, 3), rnd.randrange(0, 3), rnd.randrange(0, 2)] + [rnd.getrandbits(31) for _ in range(12)]
+                ra, oa, _ = run([s.exe(h, False)] + [str(x) for x in ins], timeout=20)
+                rb, ob, _ = run([s.exe(h, True)] + [str(x) for x in ins], timeout=20)
+                if ra == 77 and rb == 77: continue
+                cnt += 1
+                if ra != rb or oa != ob:
+                    raise VfError('TRANSLATOR MISMATCH kernel %s variant %d inputs %s\n--- real\n%s\n--- gen\n%s' % (s.name, h, ins, oa, ob))
+        return cnt
+
+    def cbmc(s, h, witness=False, timeout=120, unwind=None, extra=(), trace=True, mem_gb=16):
+        cmd = ['cbmc', s.genc, s.hc, VERIF + '/tools/rt.c', '-DGEN', '--function', s.entry, '--unwind', str(s.unwind)] + CBMC_FLAGS + \
+              ['-I' + VERIF + '/tools', '-I' + VERIF + '/harness'] + s.variants[h] + s.extra_cbmc + [x for x in extra if not x.startswith('-DVF_')]
+        if witness: cmd += ['-DWITNESS']
+        if trace: cmd += ['--trace']
+        rc, out, t = run(cmd, timeout=timeout, memlimit_gb=mem_gb)
+        return parse_cbmc(rc, out, t)
